@@ -6,7 +6,7 @@ from .engine import Case, Prop
 class C08(Prop):
     """Theorems (Props/C08.lean) about the printing model + correspondence: the printed text read back is the value cut off toward zero at the last printed digit, with the continuation mark exactly when something non-zero was cut off; all three printing paths, every digit budget."""
     id = "C08"
-    needs_knobs = True
+    needs_knobs = ("default",)
     module = "Anything.Props.C08"
     trusted = ["Spec.Printed (read-back and faithfulness) is human input"]
 
@@ -67,7 +67,7 @@ class C08(Prop):
 class C19(Prop):
     """Theorems (Props/C19.lean): the printing loop stated outright (exact/decimal number, space iff the unit has a numerator, plural only when the value is not one, one item per result, errors do not stop the loop) + correspondence between the real `any` binary and the model applied to the library's results. `C19_power_text`: the superscript digits the model writes for a unit power read back to exactly that power."""
     id = "C19"
-    needs_knobs = True
+    needs_knobs = ("cli",)
     module = "Anything.Props.C19"
     needs_tables = True
     watchdog_s = 30
